@@ -12,14 +12,14 @@ case "${1:-}" in
     git -C /repo worktree prune
     git -C /repo worktree add -q --detach "$LAB/repo" HEAD
     mkdir -p "$LAB/verif"
-    rsync -a --exclude target --exclude scratch --exclude .git --exclude replays --exclude evidence /verif/ "$LAB/verif/"
-    sed -i "s#path = \"/repo\"#path = \"$LAB/repo\"#" "$LAB/verif/harness/Cargo.toml"
+    rsync -a --exclude target --exclude target-fine --exclude scratch --exclude .git --exclude replays --exclude evidence /verif/ "$LAB/verif/"
+    sed -i "s#path = \"/repo\"#path = \"$LAB/repo\"#" "$LAB/verif/harness/Cargo.toml" "$LAB/verif/harness-fine/Cargo.toml"
     sed -i "s#target-dir = \"/verif/target\"#target-dir = \"$LAB/verif/target\"#" "$LAB/verif/.cargo/config.toml"
     mkdir -p "$LAB/verif/replays" "$LAB/verif/evidence"
     (cd "$LAB/verif" && VERIF_REPO="$LAB/repo" ./setup.sh | tail -2)
     ;;
   sync)
-    rsync -a --exclude target --exclude scratch --exclude .git --exclude replays --exclude evidence --exclude harness/Cargo.toml --exclude .cargo /verif/ "$LAB/verif/"
+    rsync -a --exclude target --exclude target-fine --exclude scratch --exclude .git --exclude replays --exclude evidence --exclude harness/Cargo.toml --exclude harness-fine/Cargo.toml --exclude .cargo /verif/ "$LAB/verif/"
     git -C "$LAB/repo" checkout -q --detach "$(git -C /repo rev-parse HEAD)"
     ;;
   run)
